@@ -4,6 +4,7 @@ import (
 	"fmt"
 	"reflect"
 	"strings"
+	"time"
 
 	"verif/internal/prng"
 	"verif/internal/sim"
@@ -29,11 +30,26 @@ type c16Case struct {
 	Untouched []string
 	Bad       bool // object/target missing: 400, nothing changes
 	Info      M
+	// Unordered lists the owned targets whose members are an unordered
+	// Collection's items: compared as a multiset
+	Unordered map[string]bool
+}
+
+// sameInstant compares two RFC 3339 strings as instants, to the second.
+func sameInstant(a, b interface{}) bool {
+	as, ok1 := a.(string)
+	bs, ok2 := b.(string)
+	if !ok1 || !ok2 {
+		return false
+	}
+	ta, e1 := time.Parse(time.RFC3339Nano, as)
+	tb, e2 := time.Parse(time.RFC3339Nano, bs)
+	return e1 == nil && e2 == nil && ta.Unix() == tb.Unix()
 }
 
 func genC16(g *prng.R) c16Case {
 	typ := pick(g, "Update", "Update", "Delete", "Add", "Remove", "Like", "Block")
-	cs := c16Case{Typ: typ, WantStore: map[string]interface{}{}, Front: map[string][]string{}, Info: M{}}
+	cs := c16Case{Typ: typ, WantStore: map[string]interface{}{}, Front: map[string][]string{}, Info: M{}, Unordered: map[string]bool{}}
 	sc := outboxScenario(nil, nil)
 	sc.Cfg.ClockOffsetMin = 0
 	sc.Cfg.ClockUnix = 1500000000 + int64(g.Intn(400000000))
@@ -43,11 +59,24 @@ func genC16(g *prng.R) c16Case {
 	cs.Sc = sc
 	act := M{"type": typ, "actor": alice(), "to": carol()}
 	n := g.Range(1, 3)
-	memberPool := []string{"content", "summary", "name", "mediaType", "sensitive", "x-custom"}
+	memberPool := []string{"content", "summary", "name", "mediaType", "sensitive", "x-custom", "tag", "attachment", "cc"}
 	sample := func(k string, tag string) interface{} {
 		switch k {
 		case "sensitive":
 			return tag == "new"
+		case "tag":
+			// list-valued: replaced as a whole, not merged
+			if tag == "new" {
+				return A{M{"type": "Mention", "href": R1 + "/users/carol", "name": "@carol"}}
+			}
+			return A{M{"type": "Hashtag", "name": "#old"}, M{"type": "Mention", "href": R2 + "/users/erin", "name": "@erin"}}
+		case "attachment":
+			return M{"type": "Image", "url": "https://media.example/" + tag + ".png", "name": tag}
+		case "cc":
+			if tag == "new" {
+				return A{R1 + "/users/carol", R2 + "/users/erin"}
+			}
+			return A{R1 + "/users/dave"}
 		case "mediaType":
 			return "text/" + tag
 		default:
@@ -94,6 +123,11 @@ func genC16(g *prng.R) c16Case {
 		} else {
 			act["object"] = objs
 		}
+		if g.Chance(1, 5) {
+			// a null on the activity itself says nothing about the objects
+			act[pick(g, "summary", "name", "content")] = nil
+			cs.Info["activity_level_null"] = true
+		}
 	case "Delete":
 		var objs A
 		for i := 0; i < n; i++ {
@@ -112,6 +146,10 @@ func genC16(g *prng.R) c16Case {
 			sc.Store[id] = withCtx(stored)
 			if g.Bool() {
 				objs = append(objs, id)
+			} else if g.Chance(1, 3) {
+				// the client's copy may be stale or generic: the former type
+				// is the stored value's
+				objs = append(objs, M{"type": pick(g, "Object", "Note", "Document"), "id": id, "published": "2001-01-01T00:00:00Z"})
 			} else {
 				objs = append(objs, M{"type": ft, "id": id})
 			}
@@ -141,17 +179,35 @@ func genC16(g *prng.R) c16Case {
 					items = append(items, o)
 				}
 			}
-			items = append(items, R2+"/notes/keep")
+			if !g.Chance(1, 4) {
+				items = append(items, R2+"/notes/keep") // else the target may be empty, or be emptied
+			}
 			if g.Bool() {
 				items = append(A{R2 + "/notes/first"}, items...)
 			}
 			var tid string
 			if owned {
-				tid = ownedCollection(sc, fmt.Sprintf("t%d", i), ordered, items...)
+				stored := append(A{}, items...)
+				if g.Chance(1, 4) {
+					// members kept in embedded form
+					for k := range stored {
+						if g.Bool() {
+							stored[k] = M{"type": "Note", "id": stored[k]}
+						}
+					}
+				}
+				tid = ownedCollection(sc, fmt.Sprintf("t%d", i), ordered, stored...)
 				member, ct := "items", "Collection"
 				if ordered {
 					member, ct = "orderedItems", "OrderedCollection"
 				}
+				if g.Chance(1, 6) {
+					// the page types are collections too
+					ct += "Page"
+					sm := sc.Store[tid].(M)
+					sm["type"] = ct
+				}
+				cs.Unordered[tid] = !ordered
 				var want A
 				if typ == "Add" {
 					want = append(append(A{}, items...), stringsToA(objIDs)...)
@@ -176,7 +232,14 @@ func genC16(g *prng.R) c16Case {
 				}
 				cs.Untouched = append(cs.Untouched, tid)
 			}
-			targets = append(targets, tid)
+			switch g.Intn(8) {
+			case 0: // embedded, with a stale copy of the members: the stored collection counts
+				targets = append(targets, M{"type": "Collection", "id": tid, "items": A{R2 + "/notes/stale-client-copy"}})
+			case 1:
+				targets = append(targets, M{"type": "Link", "href": tid})
+			default:
+				targets = append(targets, tid)
+			}
 		}
 		act["target"] = targets
 	case "Like":
@@ -286,6 +349,38 @@ func init() {
 				got := res.After.Store[id]
 				var wn interface{}
 				mustRoundTrip(want, &wn)
+				wm0, _ := wn.(map[string]interface{})
+				gm0, _ := got.(map[string]interface{})
+				if wm0 != nil && wm0["type"] == "Tombstone" {
+					// the members the statement names; others may stay
+					bad := gm0 == nil || gm0["type"] != "Tombstone" || gm0["id"] != wm0["id"] || gm0["formerType"] != wm0["formerType"] || !sameInstant(gm0["deleted"], wm0["deleted"])
+					for _, k := range []string{"published", "updated"} {
+						if w, has := wm0[k]; has && (gm0 == nil || !sameInstant(gm0[k], w)) {
+							bad = true
+						}
+					}
+					if bad {
+						viol("store-delta", site, "Delete value", fmt.Sprintf("stored %s = %s\nwant a Tombstone with %s", id, jstr(got), jstr(wn)))
+					}
+					continue
+				}
+				if _, isTarget := cs.Unordered[id]; isTarget {
+					// a target collection: judged by the ids it holds, in
+					// order for an ordered one
+					wantIDs := idsOf(wm0["items"])
+					if _, ord := wm0["orderedItems"]; ord {
+						wantIDs = idsOf(wm0["orderedItems"])
+					}
+					gotIDs := collectionItems(res.After, id)
+					okc := eqStrings(gotIDs, wantIDs)
+					if cs.Unordered[id] {
+						okc = sameMultiset(gotIDs, wantIDs)
+					}
+					if gm0 == nil || !okc || gm0["id"] != wm0["id"] {
+						viol("store-delta", site, cs.Typ+" value", fmt.Sprintf("stored %s holds %v\nwant %v", id, gotIDs, wantIDs))
+					}
+					continue
+				}
 				if !looseEqual(wn, got, false) {
 					feat := cs.Typ + " value"
 					if cs.Typ == "Update" {
@@ -317,7 +412,37 @@ func init() {
 					viol("collection-front", site, cs.Typ, fmt.Sprintf("%s = %v, want %v in front of %v", col, after, news, before))
 				}
 			}
+			// frame: nothing but what the activity names may change
+			for _, c := range storeChanges(res.Before, res.After) {
+				_, w := cs.WantStore[c]
+				_, f := cs.Front[c]
+				if w || f || contains(res.Issued, c) || strings.HasPrefix(c, "outbox:") {
+					continue
+				}
+				viol("untouchable-modified", site, cs.Typ+" bystander", fmt.Sprintf("%s changed although the %s does not name it", c, cs.Typ))
+			}
+			if cs.Typ != "Block" && sc.Cfg.Federating {
+				// every accepted activity but a Block goes out to its recipients
+				n := 0
+				for _, e := range res.Log {
+					if e.Kind == "tp.BatchDeliver" || e.Kind == "tp.Deliver" {
+						n++
+					}
+				}
+				if n == 0 {
+					viol("not-accepted", "pub.(*sideEffectActor).Deliver", cs.Typ+" not delivered", "an accepted "+cs.Typ+" addressed to a remote actor was never handed to the transport")
+				}
+			}
 			if cs.Typ == "Block" {
+				if nid := firstIssued(res); nid != "" {
+					if bm, _ := res.After.Store[nid].(map[string]interface{}); bm != nil {
+						var body M
+						mustRoundTrip(sc.Requests[0].Body, &body)
+						if bm["type"] != "Block" || !sameSet(idsOf(bm["object"]), idsOf(body["object"])) {
+							viol("block-not-stored", "pub.(*sideEffectActor).addToOutbox", "Block value", fmt.Sprintf("stored %s", jstr(bm)))
+						}
+					}
+				}
 				nid := ""
 				if len(res.Issued) > 0 {
 					nid = res.Issued[0]
@@ -365,7 +490,63 @@ func init() {
 				judge(cs)
 			})
 		}
+		// a Block and another activity on the same Actor value, in both
+		// orders: the Block is not delivered, the other one is
+		nseq := 200
+		if thorough() {
+			nseq = 10000
+		}
+		for i := 0; i < nseq; i++ {
+			i := i
+			jobs = append(jobs, func() {
+				g := prng.New(r.SeedV, "c16.seq", i)
+				sc := outboxScenario(nil, nil)
+				blk := withCtx(M{"type": "Block", "actor": alice(), "to": carol(), "object": dave()})
+				oth := withCtx(M{"type": pick(g, "Like", "Follow", "Listen"), "actor": alice(), "to": carol(), "object": R1 + "/notes/1"})
+				order := []M{blk, oth}
+				if g.Bool() {
+					order = []M{oth, blk}
+				}
+				if g.Chance(1, 3) {
+					order = append(order, order[0])
+				}
+				sc.Requests = nil
+				for _, b := range order {
+					sc.Requests = append(sc.Requests, sim.PostOutboxReq(aliceOut(), b))
+				}
+				sc.Name = fmt.Sprintf("block-sequence#%d", i)
+				res := sim.Run(sc)
+				r.Eval(1)
+				for k, rp := range res.Responses {
+					if rp.Err != "" || rp.Panic != "" || len(rp.Statuses) != 1 || rp.Statuses[0] != 201 {
+						continue
+					}
+					n := 0
+					for _, e := range res.Log[rp.FirstEvent:rp.LastEvent] {
+						if e.Kind == "tp.BatchDeliver" || e.Kind == "tp.Deliver" {
+							n++
+						}
+					}
+					isBlock := order[k]["type"] == "Block"
+					if isBlock && n > 0 {
+						r.Violate(verdict.Sig{Rule: "C16.block-delivered", Site: "pub.(*sideEffectActor).PostOutbox", Feature: "Block in a sequence"}, witness{Scenario: sc}, map[string]interface{}{"message": fmt.Sprintf("request %d (a Block) was delivered", k), "log": res.Log})
+					}
+					if !isBlock && n == 0 {
+						r.Violate(verdict.Sig{Rule: "C16.not-accepted", Site: "pub.(*sideEffectActor).PostOutbox", Feature: "not delivered after a Block"}, witness{Scenario: sc}, map[string]interface{}{"message": fmt.Sprintf("request %d (%v) was accepted but never handed to the transport", k, order[k]["type"]), "log": res.Log})
+					}
+					r.Count("sequence_posts_judged", 1)
+				}
+				r.NonTrivial(sc.Name + jstr(sc.Requests))
+			})
+		}
 		parallel(jobs)
 		return r.Finish()
 	}
+}
+
+func firstIssued(res *sim.Result) string {
+	if len(res.Issued) > 0 {
+		return res.Issued[0]
+	}
+	return ""
 }
